@@ -18,7 +18,8 @@ TARGETS = ["a", "b", "c", "d"]
 LEVELS = ["struct", "enum", "alias", "const", "variant", "field", "vfield", "file"]
 
 
-def render_expr(e):
+def render_expr(e, trailing=False):
+    """trailing: rustfmt's vertical layout leaves a comma after the last operand of any / all / not (same expression)"""
     k = e["k"]
     if k == "os":
         return f'target_os = "{e["v"]}"'
@@ -28,12 +29,16 @@ def render_expr(e):
         return "unix"
     if k == "os_other":
         return 'target_family = "a"'
-    return f'{k}({", ".join(render_expr(c) for c in e["cs"])})'
+    return f'{k}({", ".join(render_expr(c, trailing) for c in e["cs"])}{"," if trailing and e["cs"] else ""})'
 
 
 def attrs_text(attrs, inner=False):
+    """half of the attribute lists (chosen by their own text, so a replay renders the same) are written with trailing commas"""
+    import hashlib
     bang = "!" if inner else ""
-    return "".join(f"#{bang}[cfg({render_expr(e)})]\n" for e in attrs)
+    flat = "".join(render_expr(e) for e in attrs)
+    trailing = int(hashlib.sha1(flat.encode()).hexdigest()[:2], 16) % 2 == 0
+    return "".join(f"#{bang}[cfg({render_expr(e, trailing)}{',' if trailing else ''})]\n" for e in attrs)
 
 
 def source(attrs):
